@@ -34,15 +34,20 @@ pub fn hexbig(s: &str) -> BigUint {
 
 /// primes below 2000 that divide h
 pub fn small_prime_factors(h: &BigUint) -> Vec<u64> {
+    prime_factors_below(h, 2000)
+}
+
+/// primes below `bound` that divide h
+pub fn prime_factors_below(h: &BigUint, bound: usize) -> Vec<u64> {
     let mut out = Vec::new();
     if h.is_zero() {
         return out;
     }
-    let mut sieve = vec![true; 2000];
-    for p in 2..2000usize {
+    let mut sieve = vec![true; bound];
+    for p in 2..bound {
         if sieve[p] {
             let mut m = p * p;
-            while m < 2000 {
+            while m < bound {
                 sieve[m] = false;
                 m += p;
             }
